@@ -100,6 +100,7 @@ pub(crate) fn lex(input: &str) -> impl Iterator<Item = (SyntaxKind, &str)> {
     lex_(input, true)
 }
 
+#[cfg(test)]
 pub(crate) fn lex_inline(input: &str) -> impl Iterator<Item = (SyntaxKind, &str)> {
     lex_(input, false)
 }
